@@ -53,7 +53,19 @@ on_fatal(vsched::Verdict v)
   }
   C.fatal_phase = g_phase;
   C.fatal_index = g_curindex;
-  for (auto &r : vsched::reports()) C.report_kinds[r.kind]++;
+  {
+    // oracle hits recorded before the fatal verdict belong to this case too
+    std::set<std::string> kinds;
+    for (auto &r : vsched::reports()) {
+      C.report_kinds[r.kind]++;
+      if (kinds.insert(r.kind).second && C.viols.size() < 64) {
+        char vf[256];
+        snprintf(vf, sizeof vf, "%s/viol-%lu-%s.case", g_outdir.c_str(), g_curindex, r.kind.c_str());
+        wk::write_file(vf, g_curtext);
+        C.viols.push_back({r.kind, r.msg, vf, g_curindex});
+      }
+    }
+  }
   char fn[256];
   snprintf(fn, sizeof fn, "%s/fatal-%lu.case", g_outdir.c_str(), g_curindex);
   wk::write_file(fn, g_curtext);
